@@ -120,6 +120,46 @@ func TestC19Logs(t *testing.T) {
 				trace = append(trace, "initiator-transport-finished")
 				c.Count("logs_after_own_side_finished", 1)
 			}
+			if r.Intn(8) == 0 {
+				// the RESPONDER restarts the channel; its restart validation yields a voucher result each time
+				// it is consulted. Only what the responder actually sends goes into the logs, once.
+				nrest := 0
+				B.val.SetOutcome(func(kind string, n int, ch datatransfer.ChannelID) (datatransfer.ValidationResult, error) {
+					if kind != "restart" {
+						return datatransfer.ValidationResult{Accepted: true}, nil
+					}
+					nrest++
+					vr := datatransfer.TypedVoucher{Type: "RTrestart", Voucher: gen.ToNode(fmt.Sprintf("restart-result-%d-%d", i, nrest))}
+					return datatransfer.ValidationResult{Accepted: true, VoucherResult: &vr}, nil
+				})
+				nnet, nd := B.net.Len(), len(tp.br.deliveries())
+				err := B.m.RestartDataTransferChannel(bg, chid)
+				settle()
+				B.val.SetOutcome(func(kind string, n int, ch datatransfer.ChannelID) (datatransfer.ValidationResult, error) {
+					return datatransfer.ValidationResult{Accepted: true}, nil
+				})
+				// what the responder put on the wire during the restart
+				var carried []datatransfer.Message
+				for _, nc := range B.net.Sends(nnet) {
+					if nc.Err == nil {
+						carried = append(carried, nc.Msg)
+					}
+				}
+				for _, d := range tp.br.deliveries()[nd:] { // ... and through the transport (requests it opened or resumed, replies to the initiator's request)
+					if d.To == A && d.Msg != nil {
+						carried = append(carried, d.Msg)
+					}
+				}
+				for _, m := range carried {
+					if rs, ok := m.(datatransfer.Response); ok && rs.TransferID() == chid.ID && !rs.EmptyVoucherResult() {
+						n, _ := rs.VoucherResult()
+						wantR = append(wantR, doubles.TV{Type: string(rs.VoucherResultType()), CBOR: doubles.CBOR(n)})
+					}
+				}
+				trace = append(trace, fmt.Sprintf("responder-restart(err=%v, validations=%d)", err != nil, nrest))
+				c.Count("responder_restarts", 1)
+				goto compare
+			}
 			switch r.Intn(4) {
 			case 0, 1: // initiator sends a voucher
 				v := gen.Voucher(r, "VT"+fmt.Sprint(r.Intn(3)))
@@ -186,6 +226,7 @@ func TestC19Logs(t *testing.T) {
 				trace = append(trace, "validation-result")
 				c.Count("validation_results", 1)
 			}
+		compare:
 			for _, side := range []*mgrFix{A, B} {
 				name := "initiator"
 				if side == B {
